@@ -53,7 +53,7 @@ func GenDuelDrain(seed int64, idx int, tier string) *Plan {
 	k := 1 + rng.Intn(3)
 	for i := 0; i < k; i++ {
 		// slow enough to be still running when a drain that did not wait for them has returned
-		p.Clients = append(p.Clients, []Req{{ID: fmt.Sprintf("r%d", i+1), Svc: "A", Host: "a.test", Path: "/x", Kind: "slow", HoldMs: 300 + rng.Intn(400), After: "c1"}})
+		p.Clients = append(p.Clients, []Req{{ID: fmt.Sprintf("r%d", i+1), Svc: "A", Host: "a.test", Path: "/x", Kind: "slow", HoldMs: 300 + rng.Intn(400), After: "c1", Chunked: i%2 == 1}})
 	}
 	p.BarrierN = k + 1
 	return p
@@ -83,6 +83,12 @@ func GenDuelProbe(seed int64, idx int, tier string) *Plan {
 		a, b = "t2", "t1"
 	}
 	p.Barrier = []string{"hc_applied@hc:" + a + "#1", "hc_result@hc:" + b + "#1"}
+	// the loop that still has to apply its result starts up to 30 microseconds after the one that is about to rebuild the
+	// rotation (or the other way round): the rebuild of one is under way when the other's state change arrives
+	if rng.Intn(4) > 0 {
+		late := p.Barrier[rng.Intn(2)]
+		p.BarrierStaggerNs = map[string]int{late: 500 + rng.Intn(30000)}
+	}
 	p.ParkPoints = []string{"hc_applied", "hc_result"}
 	p.BarrierN = 2
 	p.BarrierAfterMs = 1900
@@ -97,5 +103,30 @@ func GenDuelProbe(seed int64, idx int, tier string) *Plan {
 		cl = append(cl, Req{ID: fmt.Sprintf("r%d", i+1), Svc: "A", Host: "a.test", Path: "/x", Kind: "plain", WaitMs: w + 40, Sync: true})
 	}
 	p.Clients = [][]Req{cl}
+	return p
+}
+
+// GenDuelStop: requests held at the gate of a paused service are released by a stop (or a resume) while nothing is
+// parked: the waiters wake on the real scheduler the moment the release channel is closed and re-read the state while
+// the command is still inside the pause controller. Serves C07 (held + stop => 503 with the message; held + resume =>
+// forwarded).
+func GenDuelStop(seed int64, idx int, tier string) *Plan {
+	rng := rand.New(rand.NewSource(seed*23000009 + int64(idx)))
+	p := &Plan{Family: "duelstop", Seed: seed*23000009 + int64(idx), Targets: map[string]TargetScript{}, QuantumMs: 100, SettleMs: 3000,
+		Sched: "random", ParkPoints: []string{"dep_started"}, Urgent: true}
+	p.Targets["t1"] = TargetScript{Then: ProbeOutcome{Class: "ok"}}
+	last := Cmd{ID: "c3", Kind: "stop", Svc: "A", DrainTimeoutMs: 500, Msg: "closed", WaitMs: 300}
+	if rng.Intn(4) == 0 {
+		last = Cmd{ID: "c3", Kind: "resume", Svc: "A", WaitMs: 300}
+	}
+	p.Lanes = [][]Cmd{{
+		{ID: "c1", Kind: "deploy", Svc: "A", Hosts: []string{"a.test"}, Targets: []string{"t1"}, DeployTimeoutMs: 2000, DrainTimeoutMs: 500},
+		{ID: "c2", Kind: "pause", Svc: "A", DrainTimeoutMs: 500, MaxPauseMs: 3000},
+		last,
+	}}
+	k := 8 + rng.Intn(17)
+	for i := 0; i < k; i++ {
+		p.Clients = append(p.Clients, []Req{{ID: fmt.Sprintf("r%d", i+1), Svc: "A", Host: "a.test", Path: "/x", Kind: "plain", After: "c2", WaitMs: 10 + rng.Intn(100)}})
+	}
 	return p
 }
